@@ -133,7 +133,7 @@ func instrumentDir(dir string) {
 			continue
 		}
 		addImport(f)
-		dropUnusedImports(f, "sync", "time", "runtime")
+		dropUnusedImports(f, "sync", "time", "runtime", "sync/atomic")
 		var buf bytes.Buffer
 		buf.WriteString("//go:build go1.18\n\n")
 		if err := format.Node(&buf, fset, f); err != nil {
@@ -360,16 +360,26 @@ func post(n ast.Node) ast.Node {
 				case "Mutex", "RWMutex", "WaitGroup", "Once", "Cond", "NewCond", "Locker":
 					counts["sync."+name]++
 					return sel(name)
-				case "Map", "Pool":
-					// no scheduling relevance by themselves; sync.Map.Range order is not modelled
-					if name == "Map" {
-						die(s.Pos(), "sync.Map (iteration order and internal locking are not modelled)")
-					}
+				case "Pool":
+					counts["sync.Pool"]++
+					return sel("Pool")
+				case "Map":
+					die(s.Pos(), "sync.Map (iteration order and internal locking are not modelled)")
 				default:
 					die(s.Pos(), "sync.%s", name)
 				}
 			case "sync/atomic":
-				die(s.Pos(), "sync/atomic (used as a synchronizer it would not be modelled)")
+				counts["atomic."+name]++
+				switch name {
+				case "Int32", "Int64", "Uint32", "Uint64", "Uintptr", "Bool", "Pointer", "Value":
+					return sel("Atomic" + name)
+				}
+				switch {
+				case strings.HasPrefix(name, "Load"), strings.HasPrefix(name, "Store"), strings.HasPrefix(name, "Add"),
+					strings.HasPrefix(name, "Swap"), strings.HasPrefix(name, "CompareAndSwap"):
+					return sel(name)
+				}
+				die(s.Pos(), "sync/atomic.%s", name)
 			case "runtime":
 				if name == "Gosched" {
 					return sel("Yield")
